@@ -303,6 +303,13 @@ func callCommon(c *ssa.CallCommon, ij InstrJ) {
 		ij["fnv"] = val(c.Value)
 	}
 	ij["args"] = vals(c.Args)
+	if _, ok := c.Value.(*ssa.Builtin); ok {
+		var ts []string
+		for _, a := range c.Args {
+			ts = append(ts, tid(a.Type()))
+		}
+		ij["argts"] = ts
+	}
 }
 
 func instr(in ssa.Instruction) InstrJ {
